@@ -228,6 +228,7 @@ done
 func a2lPart(rounds int) {
 	pipeToolPart("addr2line", a2lScript, rounds)
 	pipeToolPart("llvm-symbolizer", llvmScript, rounds)
+	dyingToolPart()
 }
 
 const llvmScript = `#!/bin/sh
@@ -236,6 +237,100 @@ while read t f a; do
   echo "{\"Address\":\"$a\",\"ModuleName\":\"$f\",\"Symbol\":[{\"Line\":7,\"Column\":0,\"FunctionName\":\"s$x\",\"FileName\":\"src.c\",\"StartLine\":0}]}"
 done
 `
+
+// ToolPipe.tla on the real code: the scripted tool exits after k answers (a crash, a closed pipe). The calls the fault
+// hits get an error; every call RETURNS (nobody waits for ever for a mutex whose holder has left) and an answer is the
+// caller's own. The watchdog is generous (20 s for calls that take microseconds): it decides between "returned" and
+// "blocked for ever", not between fast and slow.
+const dyingA2l = `#!/bin/sh
+n=0
+while read a; do
+  n=$((n+1)); if [ $n -gt %d ]; then exit 1; fi
+  echo "0x$a"
+  if [ "$a" = "ffffffffffffffff" ]; then echo '??'; echo '??:0'; else echo "s$a"; echo "src.c:7"; fi
+done
+`
+const dyingLLVM = `#!/bin/sh
+n=0
+while read t f a; do
+  n=$((n+1)); if [ $n -gt %d ]; then exit 1; fi
+  x=${a#0x}
+  echo "{\"Address\":\"$a\",\"ModuleName\":\"$f\",\"Symbol\":[{\"Line\":7,\"Column\":0,\"FunctionName\":\"s$x\",\"FileName\":\"src.c\",\"StartLine\":0}]}"
+done
+`
+
+func dyingToolPart() {
+	for _, t := range []struct{ tool, script string }{{"addr2line", dyingA2l}, {"llvm-symbolizer", dyingLLVM}} {
+		for _, k := range []int{0, 1, 3, 8} {
+			dyingTool(t.tool, fmt.Sprintf(t.script, k), k)
+		}
+	}
+}
+
+func dyingTool(tool, script string, k int) {
+	dir, err := os.MkdirTemp("", "c20-dying-")
+	if err != nil {
+		run.Infra(err.Error())
+		return
+	}
+	defer os.RemoveAll(dir)
+	os.WriteFile(filepath.Join(dir, tool), []byte(script), 0o755)
+	var b bytes.Buffer
+	h := elf.Header64{Type: uint16(elf.ET_EXEC), Machine: uint16(elf.EM_X86_64), Version: 1, Phoff: 64, Ehsize: 64, Phentsize: 56, Phnum: 1, Shentsize: 64}
+	copy(h.Ident[:], []byte{0x7f, 'E', 'L', 'F', byte(elf.ELFCLASS64), byte(elf.ELFDATA2LSB), 1})
+	binary.Write(&b, binary.LittleEndian, h)
+	binary.Write(&b, binary.LittleEndian, elf.Prog64{Type: uint32(elf.PT_LOAD), Flags: uint32(elf.PF_R | elf.PF_X), Off: 0, Vaddr: 0, Filesz: 4096, Memsz: 65536, Align: 4096})
+	exe := filepath.Join(dir, "bin")
+	os.WriteFile(exe, append(b.Bytes(), make([]byte, 4096-b.Len())...), 0o755)
+	oldPath := os.Getenv("PATH")
+	os.Setenv("PATH", dir)
+	defer os.Setenv("PATH", oldPath)
+	bu := &binutils.Binutils{}
+	bu.SetTools(tool + ":" + dir)
+	f, err := bu.Open(exe, 0x10000, 0x20000, 0, "")
+	if err != nil {
+		run.Infra(tool + " dying part: " + err.Error())
+		return
+	}
+	run.Count(fmt.Sprintf("dying|%s|%d", tool, k))
+	const callers, calls = 4, 6
+	var returned, crossed int32
+	var mu sync.Mutex
+	done := make(chan struct{})
+	var wg sync.WaitGroup
+	for g := 0; g < callers; g++ {
+		wg.Add(1)
+		go func(g int) {
+			defer wg.Done()
+			defer func() { recover() }()
+			for c := 0; c < calls; c++ {
+				q := uint64(0x100 + g*0x1000 + c*8)
+				fr, err := f.SourceLine(0x10000 + q)
+				mu.Lock()
+				returned++
+				if err == nil && len(fr) > 0 && strings.HasPrefix(fr[0].Func, "s") && fr[0].Func != fmt.Sprintf("s%x", q) {
+					crossed++
+				}
+				mu.Unlock()
+			}
+		}(g)
+	}
+	go func() { wg.Wait(); close(done) }()
+	select {
+	case <-done:
+		f.Close()
+	case <-time.After(20 * time.Second):
+		mu.Lock()
+		n := returned
+		mu.Unlock()
+		// the ObjFile is abandoned (Close might block as well)
+		run.Violate("binutils", tool+"-blocked-after-tool-fault", fmt.Sprintf("the scripted %s exited after %d answers; of %d SourceLine calls by %d goroutines on one ObjFile only %d had returned 20 s later: a caller is blocked for ever", tool, k, callers*calls, callers, n), nil, nil)
+		return
+	}
+	if crossed > 0 {
+		run.Violate("binutils", tool+"-crossed-answers", fmt.Sprintf("after the tool's exit %d calls got another caller's answer", crossed), nil, nil)
+	}
+}
 
 func pipeToolPart(tool, script string, rounds int) {
 	dir, err := os.MkdirTemp("", "c20-a2l-")
